@@ -331,6 +331,21 @@ def run(ctx, p):
             ei = rig.ac(ac).error_info
             ctx.check(ei is not None and bool(ei.code == code) and ei.description == "ER: FFFE", "error_details",
                       detail="description lost on a status change while the error persists: " + repr(ei))
+            # the error code changes directly to another one; the console supplies a new text or none at all (zero-length
+            # error information): the details are those of the latest report, never the previous error's text
+            code2 = ctx.int("code2", 1, 65535)
+            ctx.assume(code2 != code)
+            text2 = ("ER: 0007", None)[ctx.choice("text2", 2)]
+            con.inst.errors[ac] = text2
+            rec3 = list(rec)
+            rec3[6], rec3[7] = (code2 >> 8) & 0xFF, code2 & 0xFF
+            inst.ac_status[ac] = rec3
+            push(con.ac_status_frame(pid=0x4E, only=[ac]))
+            ei = rig.ac(ac).error_info
+            ok_text = ei is not None and (ei.description == text2 if text2 else ei.description in (None, ""))
+            ctx.check(ei is not None and bool(ei.code == code2) and ok_text, "error_details",
+                      detail="after a direct change of the error code: " + repr(ei) + f" expected text {text2!r}")
+            con.inst.errors[ac] = "ER: FFFE"
             rec2 = list(rec)
             rec2[6], rec2[7] = 0, 0
             inst.ac_status[ac] = rec2
